@@ -393,9 +393,27 @@ SCOPE = {
             (_T, 'Table.get_table_density'), (_T, 'Table.nonzero'),
             (_U, 'compute_counts_per_sample_stats')],
 }
+SCOPE['C07'] = [(_T, 'Table.' + _m) for _m in (
+    'sort', 'sort_order', 'transpose', 'copy', 'head', 'subsample',
+    'partition', 'collapse', 'merge', '_fast_merge', 'concat', 'align_to',
+    'filter', 'transform', 'norm', 'pa', 'rankdata', 'remove_empty',
+    'update_ids')] + [(_U, 'prefer_self')]
+SCOPE['C09'] = SCOPE['C09'] + [(_U, 'prefer_self')]
 for _pid, _roots in SCOPE.items():
+    PROPS[_pid]['rules'].append(partial(G.rule_ef_args, roots=_roots))
+    if _pid == 'C07':
+        continue
     PROPS[_pid]['rules'].append(partial(G.rule_numloss, roots=_roots))
     PROPS[_pid]['rules'].append(partial(G.rule_numeric_truth, roots=_roots))
+import json as _json  # noqa: E402
+import os as _os  # noqa: E402
+with open(_os.path.join(_os.path.dirname(_os.path.dirname(
+        _os.path.abspath(__file__))), 'properties.jsonl')) as _fh:
+    for _line in _fh:
+        _d = _json.loads(_line)
+        _files = {f for f in _d['anchors']['files'] if f.endswith('.py')}
+        PROPS[_d['id']]['rules'].append(
+            partial(G.rule_late_binding, rels=_files))
 for _pid in ('C01', 'C08', 'C14'):
     PROPS[_pid]['rules'].append(partial(G.rule_emptiness_scan,
                                         roots=SCOPE[_pid]))
@@ -419,6 +437,37 @@ PROPS['C20']['rules'] += [rules_table.rule_or_errcheck]
 PROPS['C07']['rules'] += [R2.rule_loop_rebind]
 PROPS['C05']['rules'] += [R2.rule_empty_accumulation, R2.rule_all_kinds_scanned]
 PROPS['C11']['rules'] += [R2.rule_empty_accumulation]
+from . import rules_round3 as R3  # noqa: E402
+PROPS['C01']['rules'] += [R3.rule_h5_options]
+PROPS['C04']['rules'] += [R3.rule_h5_options, R3.rule_group_md_attr]
+PROPS['C02']['rules'] += [R3.rule_ensure_ascii, R3.rule_element_type]
+PROPS['C03']['rules'] += [R3.rule_tsv_id_text]
+PROPS['C07']['rules'] += [R3.rule_copy_shares_nothing]
+PROPS['C08']['rules'] += [R3.rule_kernel_path]
+PROPS['C05']['rules'] += [R3.rule_kernel_path]
+PROPS['C11']['rules'] += [R3.rule_collapse_partition_defaults]
+PROPS['C14']['rules'] += [R3.rule_param_kept, R3.rule_numeric_position_order]
+PROPS['C15']['rules'] += [R3.rule_validator_types]
+PROPS['C17']['rules'] += [R3.rule_is_empty_definition, R3.rule_uc_increments]
+PROPS['C19']['rules'] += [R3.rule_bincount_minlength]
+PROPS['C10']['rules'] += [R3.rule_disjoint_accumulates,
+                          rules_table.rule_or_errcheck]
+PROPS['C10'].setdefault('scope', {})['OR-ERRCHECK'] = (
+    lambda f: f.startswith('Table.concat'))
+PROPS['C06']['rules'] += [R3.rule_update_ids_from_original]
+PROPS['C09']['rules'] += [R3.rule_merge_md_per_iteration]
+for _pid in ('C11', 'C12', 'C13'):
+    PROPS[_pid]['rules'] += [R3.rule_small_shortcuts]
+PROPS['C11'].setdefault('scope', {}).update({
+    'TA-RNG': lambda f: False, 'SB-RANK': lambda f: False})
+PROPS['C12'].setdefault('scope', {}).update({
+    'SB-LABEL': lambda f: False, 'SB-RANK': lambda f: False})
+PROPS['C13'].setdefault('scope', {}).update({
+    'SB-LABEL': lambda f: False, 'TA-RNG': lambda f: False})
+PROPS['C20']['rules'] += [R3.rule_profile_confined_raise]
+for _p in PROPS.values():
+    for _k, _v in R3.RULE_TEXT.items():
+        _p['rule_texts'].setdefault(_k, ' '.join(_v.split()))
 for _p in PROPS.values():
     for _k, _v in R2.RULE_TEXT.items():
         _p['rule_texts'].setdefault(_k, ' '.join(_v.split()))
